@@ -235,11 +235,19 @@ fn eval_roots<T: NT>(c: &(Pat, u32), obs: &mut Obs) -> Result<(), String> {
         }
         Ok(())
     };
-    check("Roots::nth_root", outcome(|| Roots::nth_root(&x, n)), n)?;
+    // the roots are fixed-point iterations: a defect can make them loop for ever. Time-boxed (a root takes
+    // milliseconds); a call that does not return is undecided and the remaining cases still run.
+    let timed = |what: &str, got: Option<Outcome<T>>, deg: u32| -> Result<(), String> {
+        match got {
+            Some(o) => check(what, o, deg),
+            None => Ok(()),
+        }
+    };
+    timed("Roots::nth_root", runner::outcome_timed(30, move || Roots::nth_root(&x, n)), n)?;
     if !zx.is_neg() {
-        check("Roots::sqrt", outcome(|| Roots::sqrt(&x)), 2)?;
+        timed("Roots::sqrt", runner::outcome_timed(30, move || Roots::sqrt(&x)), 2)?;
     }
-    check("Roots::cbrt", outcome(|| Roots::cbrt(&x)), 3)?;
+    timed("Roots::cbrt", runner::outcome_timed(30, move || Roots::cbrt(&x)), 3)?;
     obs.note(|| format!("x={:?} n={}", zx, n));
     Ok(())
 }
@@ -368,6 +376,7 @@ fn main() {
             id: "C18",
             rule: "All methods are called through the traits (UFCS). Division pairs: structured patterns, small divisors of both signs, divisors of reduced magnitude; gcd/lcm: (g*x, g*y) with small cofactors and shared powers of two, equal operands, zero, powers of two, the extreme values MIN / MIN+1 / MAX / -1 / 2^(W-2) against +-1, +-2, 3, 0 and MAX; roots: x in {r^n, r^n +- 1, r^n + delta strictly between consecutive powers (r = 2^k, 2^k * small or a structured pattern of any size; delta = gap-1, gap/2, uniform, small), top of the range, MIN / MIN+1 / -1 / MAX / 0 / 1 with degrees {1, 3, 5, BITS-1, BITS+1, u32::MAX}, structured patterns} below and above 2^128 with degrees {1, 2, 3, 4, 5, 7, 8, 16, 40, 63, 64, 65, uniform < 80, uniform <= BITS + 2, BITS-1, BITS, BITS+1, 2^31, u32::MAX}, negative x with odd degrees. Oracle: reference integer (floor division with the remainder taking the divisor's sign, truncating div_rem, Euclid, gcd >= 0, lcm = |a*b|/gcd when representable); roots are VERIFIED on the returned value (r^n <= |x| < (r+1)^n, sign preserved), which is a complete oracle by uniqueness; signed_/unsigned_ shifts against arithmetic / logical shifts of the pattern; MulAdd when representable; Bounded/Zero/One/Num/Pow and the Checked*/Wrapping*/Saturating*/Overflowing* forwarders against the inherent methods; a panic is a violation whenever the result is representable. At 8/32/64/128 bits num-integer's own impls for the primitive of equal width are a second oracle. NON-TRIVIAL: div_floor/mod_floor with operands of opposite sign and non-zero remainder; roots with x >= 2^128 or degree >= 4; gcd with both operands >= 2 digits; every forwarder case. distinct = distinct (profile, job, inputs) by 64-bit hash.",
             assumptions: &[
+                "a root that does not return within 30 s is undecided (exit 2), never a violation; the other cases still run",
                 "gcd/lcm whose value is unrepresentable, even roots of negative numbers, degree 0, is_multiple_of(0), NumCast::from and (MIN, -1) are outside the property",
                 "the arithmetic forwarders are compared with the inherent methods, whose own correctness is C01-C08",
             ],
